@@ -75,7 +75,7 @@ impl Outcome {
         match self {
             Outcome::Done { rules, module_outputs } => format!("ODone {} {}",
                 coq_list(rules, |r| format!("({}, {})", coq_bool(r.matched),
-                    coq_list(&r.pats, |(_, ms)| coq_list(ms, |m| format!("({},{},{},{},{},{})%N", m.0, m.1, m.2, m.3, m.4, m.5))))),
+                    coq_list(&r.pats, |(_, ms)| coq_list(&Self::abridge(ms), |m| format!("({},{},{},{},{},{})%N", m.0, m.1, m.2, m.3, m.4, m.5))))),
                 coq_n(module_outputs.len() as u64)),
             Outcome::Timeout => "OTimeout".into(),
             Outcome::ModuleError => "OModuleError".into(),
@@ -83,12 +83,24 @@ impl Outcome {
             Outcome::Panic(_) => "OPanic".into(),
         }
     }
+    /// Long match lists (heavy scans) are written as: the first and last 20 matches plus one synthetic entry
+    /// holding the number of matches and a digest of all of them, so that the Coq case stays small while the
+    /// comparison still covers every match.
+    fn abridge(ms: &[MatchDump]) -> Vec<MatchDump> {
+        if ms.len() <= 48 { return ms.to_vec(); }
+        let mut h: u64 = 0xcbf29ce484222325;
+        for m in ms { for x in [m.0, m.1, m.2, m.3, m.4, m.5] { h ^= x; h = h.wrapping_mul(0x100000001b3); } }
+        let mut v = ms[..20].to_vec();
+        v.push((ms.len() as u64, h >> 1, 0, 0, 0, 0));
+        v.extend_from_slice(&ms[ms.len() - 20..]);
+        v
+    }
     pub fn json(&self) -> String {
         match self {
             Outcome::Done { rules, module_outputs } => {
                 let rs: Vec<String> = rules.iter().map(|r| {
                     let ps: Vec<String> = r.pats.iter().filter(|(_, ms)| !ms.is_empty()).map(|(n, ms)| format!("{}:{}", n,
-                        ms.iter().map(|m| format!("{}+{}{}", m.0, m.1, if m.2 > 0 { format!("^{}", m.2 - 1) } else { String::new() })).collect::<Vec<_>>().join("|"))).collect();
+                        Self::abridge(ms).iter().map(|m| format!("{}+{}{}", m.0, m.1, if m.2 > 0 { format!("^{}", m.2 - 1) } else { String::new() })).collect::<Vec<_>>().join("|"))).collect();
                     format!("{}{}{}", if r.matched { "+" } else { "-" }, r.name, if ps.is_empty() { String::new() } else { format!("[{}]", ps.join(" ")) })
                 }).collect();
                 json_str(&format!("done {} outputs={}", rs.join(" "), module_outputs.join(",")))
